@@ -169,6 +169,21 @@ impl SegmentLogWriter {
         }
     }
 
+    /// Cuts the log file back to the given size (what a failed write may have left behind is removed).
+    pub async fn truncate(&mut self, size: u64) -> Result<(), IggyError> {
+        if let Some(file) = self.file.as_mut() {
+            file.set_len(size)
+                .await
+                .with_error_context(|error| {
+                    format!("Failed to truncate log file: {}. {error}", self.file_path)
+                })
+                .map_err(|_| IggyError::CannotWriteToFile)?;
+            self.log_size_bytes.store(size, Ordering::Release);
+        }
+
+        Ok(())
+    }
+
     pub async fn fsync(&self) -> Result<(), IggyError> {
         if let Some(file) = self.file.as_ref() {
             file.sync_all()
